@@ -89,8 +89,18 @@ def _patch(wu):
       else:
         AUDIT["hits"] += 1
         known = fps.get(id(k), (set(), None))[0]
-        if fp not in known and len(AUDIT["collisions"]) < 10:
-          AUDIT["collisions"].append({"builder": func.__name__, "built_for": repr(sorted(known, key=repr))[:300], "served_for": repr(fp)[:300]})
+        if fp not in known:
+          # the key ignored something that differs: decide by building the kernel for THESE arguments and
+          # comparing it with the one that was served (Warp gives kernels of identical code the same key)
+          AUDIT["rebuilt_on_hit"] = AUDIT.get("rebuilt_on_hit", 0) + 1
+          k2 = func(*args)
+          same = (k2 is k) or (getattr(k2, "key", object()) == getattr(k, "key", None))
+          if same:
+            known.add(fp)
+          elif len(AUDIT["collisions"]) < 10:
+            AUDIT["collisions"].append(
+              {"builder": func.__name__, "built_for": repr(sorted(known, key=repr))[:300], "served_for": repr(fp)[:300], "served_key": str(getattr(k, "key", None)), "correct_key": str(getattr(k2, "key", None))}
+            )
       return k
 
     wrapper.__name__ = getattr(func, "__name__", "builder")
